@@ -38,11 +38,29 @@ def drive(coro):
 
 
 class InertTask:
+    """Handle returned by the create_task shim: the coroutine is NOT run.  Awaiting it completes immediately after calling
+    `on_await` (the environment's rendering of what the task would have done), then the done callbacks."""
+    on_await = None
+
     def __init__(self, log, coro=None):
         self.log = log
         if coro is not None and hasattr(coro, "close"):
             coro.close()
         self.cancelled_ = False
+        self.callbacks = []
+        log.append(("create_task",))
+
+    def add_done_callback(self, cb):
+        self.callbacks.append(cb)
+
+    def __await__(self):
+        self.log.append(("await_task",))
+        if InertTask.on_await is not None:
+            InertTask.on_await(self)
+        for cb in self.callbacks:
+            cb(self)
+        return None
+        yield  # pragma: no cover
 
     def cancel(self):
         self.cancelled_ = True
